@@ -15,14 +15,17 @@ FAMILIES = {
     "c09": ("U09", "P09"),
     "c09q": ("U09q", "P09q"),
     "c11": ("U11", "P11"),
+    "c13": ("U13", "P13"),
+    "c14": ("U14", "P14"),
+    "c01": ("U01", "P01"),
 }
-INVARIANTS = "Confluent DryRunNoChange NoCollateralDelete DeleteComplete ContentIdentical RepeatIsNoOp"
-ACTIONS = ["DeletePass", "Gen", "Rcv", "Finish"]
+INVARIANTS = "Confluent DryRunNoChange NoCollateralDelete DeleteComplete ContentIdentical RepeatIsNoOp FilterExact"
+ACTIONS = ["SDeletePass", "SGen", "SRcv", "SFinish"]
 
 
-def scen_cfg(fam, spec="ScnSpec", invariants=True, emit=False):
+def scen_cfg(fam, spec="ScnSpec", invariants=True, emit=False, maxrules=2):
     u, p = FAMILIES[fam]
-    c = "SPECIFICATION %s\nCONSTANTS\n  Family = \"%s\"\n  Universe <- %s\n  ParentMap <- %s\n" % (spec, fam[:3], u, p)
+    c = "SPECIFICATION %s\nCONSTANTS\n  Family = \"%s\"\n  Universe <- %s\n  ParentMap <- %s\n  BaseMap <- BaseAll\n  MaxRules = %d\n" % (spec, fam[:3], u, p, maxrules)
     if invariants:
         c += "INVARIANTS " + INVARIANTS + "\n"
     if emit:
@@ -34,15 +37,39 @@ def scen_cfg(fam, spec="ScnSpec", invariants=True, emit=False):
 
 def trace_cfg(fam):
     u, p = FAMILIES[fam]
-    return "SPECIFICATION TSpec\nCONSTANTS\n  Universe <- %s\n  ParentMap <- %s\nCHECK_DEADLOCK TRUE\n" % (u, p)
+    return "SPECIFICATION TSpec\nCONSTANTS\n  Universe <- %s\n  ParentMap <- %s\n  BaseMap <- BaseAll\nCHECK_DEADLOCK TRUE\n" % (u, p)
 
 
-def design_and_generate(w, fam, coverage=True):
+def flags_of(opts, rules=(), rule_style="opt"):
+    """Client command-line flags for an option record and a rule list."""
+    s = "-"
+    for k in ("r", "l", "p", "t", "c", "I", "n", "o", "g"):
+        if opts.get(k):
+            s += k
+    if opts.get("dv") and opts.get("sp"):
+        s += "D"
+    out = [s] if s != "-" else []
+    if opts.get("dv") and not opts.get("sp"):
+        out.append("--devices")
+    if opts.get("sp") and not opts.get("dv"):
+        out.append("--specials")
+    if opts.get("del"):
+        out.append("--delete")
+    for r in rules:
+        if rule_style == "filter":
+            out.append("-f")
+            out.append(("+ " if r["inc"] else "- ") + r["pat"])
+        else:
+            out.append(("--include=" if r["inc"] else "--exclude=") + r["pat"])
+    return out
+
+
+def design_and_generate(w, fam, coverage=True, maxrules=2):
     """Model-check the family, return (tlc result, scenarios)."""
-    r = w.tlc_ok("MCRecv", scen_cfg(fam), coverage=coverage, label="RecvSide-" + fam)
+    r = w.tlc_ok("MCRecv", scen_cfg(fam, maxrules=maxrules), coverage=coverage, label="RecvSide-" + fam)
     cov = require_coverage(r, ACTIONS) if coverage else {}
     out = w.path("recv-scen-%s.raw" % fam)
-    g = w.tlc_ok("MCRecv", scen_cfg(fam, spec="GenSpec", invariants=False, emit=True), env={"VERIF_OUT": out},
+    g = w.tlc_ok("MCRecv", scen_cfg(fam, spec="GenSpec", invariants=False, emit=True, maxrules=maxrules), env={"VERIF_OUT": out},
                  workers=1, label="RecvScenGen-" + fam)
     scen = read_ndjson(out)
     if len(scen) != g["distinct"] or len(scen) < 10:
